@@ -14,6 +14,7 @@
 package io
 
 import (
+	"errors"
 	"time"
 
 	"github.com/modern-go/reflect2"
@@ -80,6 +81,14 @@ func (enc *Encoder) writeTime(t time.Time) {
 		t = t.In(time.Local)
 	}
 	year, month, day := t.Date()
+	if year < 0 || year > 9999 {
+		// the format has four year digits
+		if enc.Error == nil {
+			enc.Error = errors.New("hprose/io: year outside of range [0,9999]")
+		}
+		enc.WriteNil()
+		return
+	}
 	hour, min, sec := t.Clock()
 	nsec := t.Nanosecond()
 	if (hour == 0) && (min == 0) && (sec == 0) && (nsec == 0) {
